@@ -69,7 +69,8 @@ RULE = ("decode: every 16-bit statusword, delivered by SDO read of 0x6041 or in 
         "node.state compared with the CiA 402 bit-pattern table (string patterns, 'UNKNOWN' when none "
         "matches). pair: every (drive state, target) of the 8 x 8 states x k in 0..3 observations before "
         "an automatic transition x 7 transports (SDO / mixed / event PDO / SYNC-cyclic PDO in lock-step / "
-        "cyclic RPDO / timer PDO from a free-running thread) x 4 free-status-bit sequences x PDO layout x "
+        "cyclic RPDO / timer PDO from a free-running thread) x 4 free-status-bit sequences x PDO layout (incl. "
+        "invalid maps that carry the words, and the controlword mapped in two valid RPDOs) x "
         "setup (configuration read by SDO or set by hand) x last controlword of the drive; oracle = "
         "reference drive's final state, its count of entries into OPERATION ENABLED during the assignment "
         "and the controlwords it received. mode: 10 CiA 402 modes x all 1024 values of bits 0..9 of 0x6502; "
@@ -103,10 +104,10 @@ TRANSPORTS = {
     "sdo": (["none", "G"], 255, 255, None),
     "cw": (["CW"], 255, 255, None),
     "sw": (["SW"], 255, 255, None),
-    "ev": (["A", "B", "C", "D", "E", "F", "H", "I"], 255, 255, None),
+    "ev": (["A", "B", "C", "D", "E", "F", "H", "I", "J"], 255, 255, None),
     "cyc": (["A", "B", "C", "D"], 1, 255, "lockstep"),
     "cycr": (["A", "B", "C", "D"], 1, 1, "lockstep"),
-    "free": (["A", "B", "C", "D", "I"], 255, 255, "free"),
+    "free": (["A", "B", "C", "D", "I", "J"], 255, 255, "free"),
 }
 TR_GROUP = {"sdo": "sdo-status", "cw": "sdo-status", "sw": "event-tpdo", "ev": "event-tpdo",
             "cyc": "cyclic-tpdo", "cycr": "cyclic-tpdo", "free": "timer-tpdo-thread"}
@@ -180,7 +181,7 @@ class Rig:
             node.TIMEOUT_SWITCH_STATE_SINGLE = 5.0
             node.TIMEOUT_SWITCH_STATE_FINAL = 0.2
         node.nmt.state = "OPERATIONAL"
-        if case.get("setup", "read") == "read" or layout in ("E", "F", "G", "H", "I"):
+        if case.get("setup", "read") == "read" or layout in ("E", "F", "G", "H", "I", "J"):
             try:
                 node.setup_402_state_machine(read_pdos=True)
             except Exception as e:
